@@ -33,8 +33,31 @@ CLAIMS = {
                  "that are recorded rather than fixed are in known_findings.json."),
         "technique": "static effect/dataflow analysis over Python ast (key coverage + staleness automaton)",
     },
-    "C03": {"text": "", "note": "", "technique": "motif-kernel completeness and kernel-boundary typing over the Cython parse tree"},
-    "C05": {"text": "", "note": "", "technique": "who-may-write, copy-completeness and save/load table agreement over Python ast"},
+    "C03": {
+        "text": ("Structural necessary conditions only: the clique-counting "
+                 "(cliquishness) kernels test every pair of enumerated neighbour "
+                 "roles and normalise by the matching falling factorial (derived "
+                 "from the kernels' own loop structure); compiled kernels used by "
+                 "network.py are called with the dtype/rank they declare; virtual "
+                 "self-calls of inherited Network methods are accepted by every "
+                 "override. Needs e.g. a degree>=4 non-clique neighbourhood to show "
+                 "in a test; holds for all graphs once shown on the source."),
+        "note": ("Does NOT decide that any measure equals its definition "
+                 "(igraph/scipy/spectral measures are out of reach)."),
+        "technique": "loop-nest guard-set extraction over the Cython parse tree, kernel-boundary type inference, override-signature check",
+    },
+    "C05": {
+        "text": ("Structural clauses: who-may-write the primary state groups, the "
+                 "loader idiom (attach the loaded graph to an object built from it, "
+                 "bump the link-attribute counter), copy completeness, agreement of "
+                 "the attribute names written by save and read by the loaders, "
+                 "definite assignment of constructor activations under the "
+                 "loaders' call-site constants, one edge enumeration for link "
+                 "count and graph, mirrored stores for undirected link attributes."),
+        "note": ("Does NOT decide what igraph preserves per file format, "
+                 "degenerate edge lists or numeric equality of weights."),
+        "technique": "who-may-write, def-use and definite-assignment analysis over Python ast effect trees",
+    },
     "C06": {
         "text": ("Flow-sensitive may-alias analysis of arrays in every function "
                  "(~900) with inter-procedural mutation/return-origin summaries: "
@@ -49,18 +72,123 @@ CLAIMS = {
                  "frozen tables of alias-preserving and in-place numpy operations."),
         "technique": "static may-alias + in-place mutation analysis over Python ast with fixpoint summaries",
     },
-    "C07": {"text": "", "note": "", "technique": "kernel-boundary typing, must-pass-through and sibling agreement"},
-    "C08": {"text": "", "note": "", "technique": "wrapper/dispatch table agreement over the Cython parse tree and Python ast"},
-    "C09": {"text": "", "note": "", "technique": "must-pass-through (funnel) analysis over Python ast"},
-    "C10": {"text": "", "note": "", "technique": "kernel-boundary typing, index typing and option-flow analysis"},
-    "C11": {"text": "", "note": "", "technique": "sibling guard-set agreement, role-suffix dataflow, override-signature check"},
-    "C12": {"text": "", "note": "", "technique": "symmetric-store, clamp must-pass-through and axis-role table agreement"},
-    "C13": {"text": "", "note": "", "technique": "who-may-read, invalidation and sibling-form rules over Python ast"},
-    "C14": {"text": "", "note": "", "technique": "sibling kernel agreement and complementary-slice rule"},
-    "C15": {"text": "", "note": "", "technique": "memoised-array purity and kernel-boundary typing"},
-    "C16": {"text": "", "note": "", "technique": "registry exhaustiveness, option flow, undefined-attribute rule"},
-    "C17": {"text": "", "note": "", "technique": "swap multiset/guard analysis over the Cython parse tree"},
-    "C18": {"text": "", "note": "", "technique": "update-order and memo-reset rules over Python ast"},
+    "C07": {
+        "text": ("Structural clauses: every compiled entry point of the "
+                 "recurrence-plot family is applicable (dtype/rank at the kernel "
+                 "boundary, declared vs allocated rank of local buffers); "
+                 "plot+network classes rebuild the adjacency from a diagonal-free "
+                 "copy after every public rewrite of the matrix (must-pass-through); "
+                 "all thresholding siblings use one relation and exclude missing "
+                 "states as rows and columns; N stored next to a matrix is its "
+                 "size; the adaptive kernel links a state to its own neighbours."),
+        "note": "Does NOT decide distance kernels, quantiles, neighbourhood sizes or NaN semantics of values.",
+        "technique": "kernel-boundary type inference, must-pass-through over effect trees, sibling agreement",
+    },
+    "C08": {
+        "text": ("Dispatch clause: the nine wrappers of _line_dist form a "
+                 "consistent table (line type x storage mode x missing values x "
+                 "colour), the Python methods call the wrapper matching the branch "
+                 "condition, the cache key covers the dispatch flags, per-row scan "
+                 "flags are reset unconditionally, derived RQA measures read the "
+                 "histograms only and never edit them in place."),
+        "note": "Does NOT verify the run-length algorithm itself or the measure formulas.",
+        "technique": "table agreement over the Cython parse tree and path conditions over Python ast",
+    },
+    "C09": {
+        "text": ("Funnel clause: every public method changing threshold, "
+                 "locality flag or similarity re-derives the adjacency afterwards "
+                 "(must-pass-through on every class of the family); one strict "
+                 "thresholding function whose diagonal clearing post-dominates the "
+                 "thresholding; the stored similarity matrix is never edited in "
+                 "place."),
+        "note": "Does NOT decide the quantile/density relation, ties or the distance weight.",
+        "technique": "must-pass-through over effect trees, def-use, alias/mutation analysis",
+    },
+    "C10": {
+        "text": ("Applicability only: kernel-boundary typing for all estimators, "
+                 "no float-constant array index, literal option values accepted by "
+                 "the callee's validation, consistent running-absmax idiom."),
+        "note": "Does NOT decide numerical equality with reference statistics.",
+        "technique": "kernel-boundary type inference, option-flow and idiom-consistency rules over ast",
+    },
+    "C11": {
+        "text": ("Structural clauses: compiled kernels and their _sparse "
+                 "siblings count under the same link tests over the same role "
+                 "domains; role-suffixed locals are computed from the matching node "
+                 "list; sub-block helpers return copies; edge-loop fills mirror "
+                 "independently; virtual calls survive the coupled overrides."),
+        "note": "Does NOT decide equality with sub-block definitions or limits.",
+        "technique": "sibling guard-set agreement (Cython vs Python loop IR), role dataflow, override-signature check",
+    },
+    "C12": {
+        "text": ("Structural clauses: pairwise-distance kernels store [i,j] and "
+                 "[j,i] in one chained store over the full triangle (exact "
+                 "symmetry by construction); every value reaching arccos passes "
+                 "both clamps; latitude is row 0 / longitude row 1 at every "
+                 "accessor, weight and window site; memoised distance matrices are "
+                 "never edited in place."),
+        "note": "Does NOT decide error bounds, the triangle inequality or nearest-node minimality.",
+        "technique": "store/loop-domain pattern rules over the Cython parse tree, table agreement, alias/mutation analysis",
+    },
+    "C13": {
+        "text": ("Structural clauses: only the constructor and set_window read "
+                 "the unwindowed data; set_global_window funnels into the virtual "
+                 "set_window with coinciding bounds; ClimateData's setters rewrite "
+                 "the view and bump the cache counter; the axis masks are closed "
+                 "intervals of one sibling form; memoised anomalies are never "
+                 "edited in place."),
+        "note": "Does NOT decide the selected indices or the anomaly arithmetic.",
+        "technique": "who-may-read, funnel and sibling-form rules over Python ast",
+    },
+    "C14": {
+        "text": ("Sibling/partition clauses: the two natural-visibility kernels "
+                 "agree (domains, slope expression, strict relation) and differ "
+                 "exactly by the missing-value conjunct and guard; every kernel "
+                 "links iff the scan reaches j and stores symmetrically; retarded "
+                 "and advanced degree sum complementary slices; the clustering "
+                 "kernels count complete triangles over past/future pairs."),
+        "note": ("Does NOT decide the geometric criterion on values; a rewritten "
+                 "kernel outside the analysed scan shape yields ANALYSIS-ERROR, not a verdict."),
+        "technique": "sibling kernel agreement over the Cython parse tree",
+    },
+    "C15": {
+        "text": ("Clauses: memoised spectrum/twins are never edited in place and "
+                 "conditionally recomputed memos are refreshed by every writer of "
+                 "their sources (repeated generation does not degrade); the "
+                 "twin-surrogate kernels are applicable; per-series work buffers "
+                 "are re-initialised for every series."),
+        "note": "Does NOT decide permutation exactness, spectra or the twin transition structure.",
+        "technique": "alias/mutation analysis, kernel-boundary typing, loop-carried work-array rule",
+    },
+    "C16": {
+        "text": ("Registry clauses: the symmetrisation registry is exhaustive "
+                 "and bound key-to-function consistently, lookups use the "
+                 "validated name; attributes read on self exist after name "
+                 "mangling; literal options flowing into validated parameters are "
+                 "accepted; the memoised directed matrix is never edited in place."),
+        "note": "Does NOT decide the counting formulas, ranges or symmetries of values.",
+        "technique": "registry/table agreement, undefined-attribute and option-flow rules over Python ast",
+    },
+    "C17": {
+        "text": ("Swap clause: each rewiring swap removes and adds the same "
+                 "end-point multiset under a guard that rules out double links and "
+                 "loops and keeps the link list consistent; prescribed-count "
+                 "generators set one unset cell per link; the cross-block "
+                 "write-back touches only [nodes1[i], nodes2[j]]; the three "
+                 "geographical wrappers feed the kernel alike; node arrays keep the "
+                 "caller's order."),
+        "note": "Does NOT decide igraph generators, distributions or tolerance semantics.",
+        "technique": "multiset/guard analysis of the swap block over the Cython parse tree, sibling agreement of wrappers",
+    },
+    "C18": {
+        "text": ("'Follows a change of the resistances': update_resistances "
+                 "stores, then rebuilds the admittance on the network's links and "
+                 "then R, in that order; C01's coherence rules restricted to "
+                 "ResNetwork; current-flow kernels applicable; no conjugating "
+                 "product in the defining sums."),
+        "note": "Does NOT decide the circuit laws (metric, Foster, series/parallel).",
+        "technique": "ordering/def-use rules over Python ast, reuse of the cache-coherence analysis",
+    },
     "C19": {
         "text": ("Source-level equivalence of the distributed and serial "
                  "branches of the four distributable betweenness measures (dead "
@@ -77,5 +205,19 @@ CLAIMS = {
                  "template and np.array_split."),
         "technique": "static sibling agreement, template matching and control-dependence analysis over Python ast + Cython parse tree",
     },
-    "C20": {"text": "", "note": "", "technique": "directive check, pointer-width/contiguity/size provenance, affine bounds over clang AST"},
+    "C20": {
+        "text": ("Memory-safety argument for the compiled layer, for all sizes: "
+                 "typed buffers are bounds-checked by directive and no kernel "
+                 "overrides it; every raw-pointer hand-off has the array's element "
+                 "width (also in the C definition), is contiguous, and its extents "
+                 "are tied to the buffer's shape at the wrapper or at each Python "
+                 "call site; every dereference in the six C functions is inside "
+                 "its buffer (affine pointer analysis with induction variables over "
+                 "the clang AST, polynomial bounds); data-dependent bin indices are "
+                 "clamped on both sides; integer product chains cannot overflow."),
+        "note": ("LP64; extents >= 0; numpy/igraph internals trusted; the Cython "
+                 "compiler's boundscheck is trusted for typed buffers; unsupported C "
+                 "constructs give ANALYSIS-ERROR."),
+        "technique": "abstract interpretation of pointer offsets as polynomials over the clang AST + Cython parse-tree rules",
+    },
 }
